@@ -103,6 +103,13 @@ def stepping_rules(OB, prog, eff, prim):
                 feeds = val == deep_strip(b.call_term(reads[0].t, reads[0].pos, 0))
                 src_ok = unref(reads[0].args()[0])[:2] == ('param', 2)
                 dst_ok = unref(writes[0].args()[0])[:2] == ('param', 3)
+                if not (src_ok and dst_ok):
+                    # the width routine merged into the stepping pass: the pointers are the pass's own cursors — the two values that are
+                    # advanced by `add` in this same body, the read through one of them and the write through the other
+                    curs = [unref(x.args()[0]) for x in b.calls() if re.search(r"(const_ptr|mut_ptr)::add$", canon(x.target or ""))]
+                    rp, wp = unref(reads[0].args()[0]), unref(writes[0].args()[0])
+                    if len(curs) == 2 and rp in curs and wp in curs and rp != wp:
+                        src_ok = dst_ok = True
                 ok = rsz == v and wsz == v and feeds and src_ok and dst_ok
                 d = f"read_volatile::<{rt}> (size {rsz}) -> write_volatile::<{wt}> (size {wsz}); value read is the value written [{feeds}]; src/dst are the routine's pointers [{src_ok and dst_ok}]"
             widths.append(v)
@@ -116,7 +123,32 @@ def stepping_rules(OB, prog, eff, prim):
     if single is None:
         return
     # ------------------------------------------------------------ stepping loop: the caller of the width routine
+
+    def _merged(x):
+        return any(re.search(r"(const_ptr|mut_ptr)::add$", canon(y.target or "")) for y in x.calls()) and \
+            any(t_["k"] == "assert" and t_["msg"] == "Overflow:Sub" for _p, t_ in x.terms())
+    # the routine that is actually used: the one that is called, or the stepping pass that contains the width switch itself (a width
+    # routine left behind uncalled is dead code and was judged on its own above)
+    live = [b_ for b_, _x in cands if _merged(b_) or any(c.target == b_.id for pb in prog.bodies for c in pb.calls())]
+    if live:
+        single = live[0]
     callers = [(b, c) for b in prog.bodies for c in b.calls() if c.target == single.id]
+    merged = _merged(single)
+    if not callers or merged:
+        # `copy_single` merged into its only caller: the body that switches on the width is the stepping pass itself; the "call" is the
+        # switch, the width its discriminant
+        spos, ssw = [x for b_, x in cands if b_ is single][0]
+        wterm = single.term(ssw["discr"], spos)
+
+        class _Here:
+            pos = spos
+            line = ssw.get("ln")
+
+            @staticmethod
+            def args():
+                return [wterm]
+        if any(re.search(r"(const_ptr|mut_ptr)::add$", canon(x.target or "")) for x in single.calls()):
+            callers = [(single, _Here)]
     OB.floor("R6.2.step_sites", len(callers), 1)
     stepper = None
     for b, c in callers:
